@@ -1,6 +1,8 @@
 package keyset
 
 import (
+	"github.com/tink-crypto/tink-go/v2/internal/protoserialization"
+	"github.com/tink-crypto/tink-go/v2/key"
 	"github.com/tink-crypto/tink-go/v2/internal/verifrt"
 	tinkpb "github.com/tink-crypto/tink-go/v2/proto/tink_go_proto"
 )
@@ -83,17 +85,30 @@ func VerifH_validate() {
 // hasSecrets / NewHandleWithNoSecrets classify by material type, at every position.
 func VerifH_hassecrets() {
 	n := 1 + verifrt.Choice("n", 3)
-	ks := &tinkpb.Keyset{}
+	ks := &tinkpb.Keyset{PrimaryKeyId: verifrt.Uint32("primary")}
 	secret := false
 	for i := 0; i < n; i++ {
 		mt := tinkpb.KeyData_KeyMaterialType(verifrt.Int32(knames[i] + ".material"))
 		// enum values on the wire are 0..4; anything else cannot be produced by the proto parser
 		verifrt.Assume(mt >= 0 && mt <= 4)
-		ks.Key = append(ks.Key, &tinkpb.Keyset_Key{KeyData: &tinkpb.KeyData{KeyMaterialType: mt}})
+		// every other attribute of the key is arbitrary: the classification must depend on the material type only
+		ks.Key = append(ks.Key, &tinkpb.Keyset_Key{
+			KeyData:          &tinkpb.KeyData{KeyMaterialType: mt, TypeUrl: "type.googleapis.com/stub"},
+			Status:           tinkpb.KeyStatusType(verifrt.Int32(knames[i] + ".status")),
+			OutputPrefixType: tinkpb.OutputPrefixType(verifrt.Int32(knames[i] + ".prefix")),
+			KeyId:            verifrt.Uint32(knames[i] + ".id"),
+		})
 		secret = verifrt.Or(secret, mt == tinkpb.KeyData_UNKNOWN_KEYMATERIAL || mt == tinkpb.KeyData_SYMMETRIC || mt == tinkpb.KeyData_ASYMMETRIC_PRIVATE)
 	}
-	verifrt.Assert(hasSecrets(ks) == secret, "hasSecrets <=> some key is UNKNOWN, SYMMETRIC or ASYMMETRIC_PRIVATE (any position)")
-	_, err := NewHandleWithNoSecrets(ks)
-	verifrt.Assert(verifrt.Implies(secret, err != nil), "NewHandleWithNoSecrets refuses keysets with secret material")
+	verifrt.Assert(hasSecrets(ks) == secret, "hasSecrets <=> some key is UNKNOWN, SYMMETRIC or ASYMMETRIC_PRIVATE (any position, any status)")
+	// key parsing (registry) is replaced by a stub that accepts every key
+	verifrt.Summarize("internal/protoserialization.ParseKey", func(s *protoserialization.KeySerialization) (key.Key, error) {
+		return &stubKey{}, nil
+	})
+	h, err := NewHandleWithNoSecrets(ks)
+	verifrt.Assert((err == nil) == verifrt.And(verifrt.Not(secret), specValid(ks)), "NewHandleWithNoSecrets succeeds iff the keyset is well-formed and has no secret material")
+	if err == nil {
+		verifrt.Assert(h.Len() == n, "handle has every key")
+	}
 	verifrt.Reach("end")
 }
